@@ -145,6 +145,20 @@ fn main() {
     let args = parse_args();
     let mut run = Runner::new("C17", &args.tier, "model_checking");
     let thorough = run.thorough();
+
+    // real (default SipHash) hashers first, with oracles that need no hash classes: independent of the model-hasher seam
+    {
+        let (rs, rv) = checks::medium::real_hasher_runs(&["hll"]);
+        run.ev.set("real_hasher_runs", serde_json::json!(rs.ops));
+        let any = !rv.is_empty();
+        for v in rv {
+            run.violation(v);
+        }
+        if any {
+            run.ev.set("stopped_after_real_hasher_runs", serde_json::json!(true));
+            run.finish();
+        }
+    }
     let jobs: Vec<(usize, usize)> = (4..=18).map(|b| (b, if thorough { if b <= 16 { 3 } else { 2 } } else if b <= 7 { 3 } else { 2 })).collect();
     let res = par_map(&jobs, n_threads(), |&(b, d)| run_b(b, d));
     let (mut st, mut cmp) = (0u64, 0u64);
